@@ -74,7 +74,7 @@ def reference_decode(ce, body: bytes):
     if not ce:
         return "ok"
     data = body
-    for mode in reversed([m.strip() for m in ce.split(",")]):
+    for mode in reversed([m.strip() for m in ce.lower().split(",")]):     # coding names are case-insensitive
         st, data = _decode_one(mode, data)
         if st != "ok":
             return st
@@ -164,13 +164,14 @@ def classify(case):
             return "either", "none", "negative chunk size"
     if not case["decode"] or not case.get("ce"):
         return "either", "none", "framing complete"
-    st = reference_decode(case["ce"], body)
+    ce_l = case["ce"].lower()
+    st = reference_decode(ce_l, body)
     if st == "error":
         return "must-raise", "decoder-error", "decoder reports an error"
     if st == "zstd-incomplete":
-        stack = "," in case["ce"] and not case["ce"].replace(" ", "").startswith("zstd")
+        stack = "," in ce_l and not ce_l.replace(" ", "").startswith("zstd")
         return "must-raise", "zstd-incomplete" + ("-inner" if stack else ""), "zstd frame incomplete"
-    if case.get("ce") and "zstd" in case["ce"] and not body and case["framing"] != "zzz":
+    if "zstd" in ce_l and not body and case["framing"] != "zzz":
         # an empty zstd body: flush demands eof of a decompressobj that never saw a frame
         return "either", "none", "empty zstd body"
     return "either", "none", "complete (" + st + ")"
